@@ -80,9 +80,10 @@ class InputProp:
     chunk = 2000
     mem_gb = 4
     nsamples = 6
-    # wall-clock budgets (about 10x the normal run time): a tree on which the check crawls gets a verdict from
-    # what was explored so far (violations found -> exit 1) or none at all (exit 2), never an endless run
-    budget_s = {"quick": 420.0, "thorough": 5400.0}
+    # wall-clock budgets (at least 10x the run time on the idle sandbox, so that a slow or busy machine stays inside): a tree
+    # on which the check crawls gets a verdict from what was explored so far (violations found -> exit 1) or none at all
+    # (exit 2), never an endless run
+    budget_s = {"quick": 1500.0, "thorough": 7200.0}
     failfast_s = {"quick": 90.0, "thorough": 900.0}  # with violations in hand, do not crawl on
 
     def prepare(self, tier):
@@ -120,6 +121,7 @@ class InputProp:
                 break
             case = space[idx]
             ctx.begin(idx, self.soft_timeout)
+            t_case = time.time()
             try:
                 r = self.run_case(case)
             except poolmod.CaseTimeout:
@@ -128,6 +130,10 @@ class InputProp:
             finally:
                 ctx.end()
                 close_leaked_sqlitedicts()
+            # (how close the slowest case came to the wall-clock watchdog: reported in the evidence, never judged)
+            t_case = time.time() - t_case
+            if t_case > out.get("slowest", (0.0, -1))[0]:
+                out["slowest"] = (t_case, idx)
             if out.get("hangs", 0) >= 3:
                 out["aborted_at"] = idx  # a chunk in which everything hangs is not worth finishing
                 out["n"] += 1
@@ -205,6 +211,8 @@ class InputProp:
             agg["viol"].extend(res["viol"])
             agg["samples"].extend(res["samples"])
             agg["collect"].extend(res.get("collect", ()))
+            if res.get("slowest", (0.0, -1))[0] > agg.get("slowest", (0.0, -1))[0]:
+                agg["slowest"] = res["slowest"]
 
         nh = [0]
 
@@ -282,6 +290,9 @@ class InputProp:
             "violation_signatures": {s: c for s, c in agg["sig_counts"].items()},
             "known_findings_seen": getattr(verdict, "n_known", 0),
             "hard_hangs_or_crashes": len(p.events),
+            "slowest_case_wall_s": round(agg.get("slowest", (0.0, -1))[0], 2),
+            "slowest_case_index": agg.get("slowest", (0.0, -1))[1],
+            "watchdog_s": self.soft_timeout,
         }
         cov.update(extra)
         report.write_evidence(self.id, tier, seed, self.level, cov, time.time() - t0,
@@ -298,15 +309,14 @@ class InputProp:
         case = record["case"]
         if isinstance(case, list):
             case = _tuplify(case)
-        import signal
-        signal.signal(signal.SIGALRM, poolmod._alarm)
-        signal.setitimer(signal.ITIMER_REAL, self.soft_timeout)
+        poolmod.install_watchdog()  # (the same CPU-time watchdog as in the workers)
+        poolmod.arm(self.soft_timeout)
         try:
             r = self.run_case(case)
         except poolmod.CaseTimeout:
             r = {"key": "hang", "viol": self.timeout_violation(case)}
         finally:
-            signal.setitimer(signal.ITIMER_REAL, 0)
+            poolmod.disarm()
         viol = r.get("viol") or []
         want = record.get("sig")
         match = [v for v in viol if v["sig"] == want] or viol
